@@ -28,11 +28,21 @@
 ldb_edit_t *g_edit;          /* the edit being filled                        */
 const uint8_t *g_src;        /* the input record                             */
 size_t g_srcn;
-size_t g_ncp, g_ndel, g_nnew;       /* entries handed to the three collections */
-ikey_entry_t *g_cp[2];       /* first and latest compact-pointer entry       */
-file_entry_t g_del[2];       /* first and latest deleted-file entry (by value: a duplicate is freed by the real code) */
-int g_del_ins[2];            /* whether rb_set_put reported "inserted"       */
-meta_entry_t *g_new[2];      /* first and latest new-file entry              */
+/* what the three collections were handed (one object: a single assigns target) */
+struct edit_ghost_s {
+  size_t ncp, ndel, nnew;      /* number of entries handed over                 */
+  ikey_entry_t *cp[2];         /* first and latest compact-pointer entry        */
+  file_entry_t del[2];         /* first and latest deleted-file entry (by value: a duplicate is freed by the real code) */
+  int del_ins[2];              /* whether rb_set_put reported "inserted"        */
+  meta_entry_t *nw[2];         /* first and latest new-file entry               */
+} g_rec;
+#define g_ncp g_rec.ncp
+#define g_ndel g_rec.ndel
+#define g_nnew g_rec.nnew
+#define g_cp g_rec.cp
+#define g_del g_rec.del
+#define g_del_ins g_rec.del_ins
+#define g_new g_rec.nw
 int g_exact_set;             /* 1: rb_set_put models a set over the recorded entries (bounded units) */
 
 size_t nondet_size(void);
@@ -123,7 +133,7 @@ __CPROVER_requires(__CPROVER_rw_ok(edit, sizeof(*edit)) && __CPROVER_r_ok(src, s
 /* the edit is freshly initialised (ldb_edit_init); releasing a used edit is ldb_edit_reset's business (unit edit.reset) */
 __CPROVER_requires(EDIT_EMPTY(edit))
 __CPROVER_requires(g_edit == edit && g_src == src->data && g_srcn == src->size && g_ncp == 0 && g_ndel == 0 && g_nnew == 0 && g_exact_set == 0)
-__CPROVER_assigns(*edit, g_ncp, g_ndel, g_nnew, __CPROVER_object_whole(g_cp), __CPROVER_object_whole(g_del), __CPROVER_object_whole(g_del_ins), __CPROVER_object_whole(g_new))
+__CPROVER_assigns(*edit, g_rec)
 __CPROVER_ensures(__CPROVER_return_value == 0 || __CPROVER_return_value == 1)
 __CPROVER_ensures(EDIT_FLAGS01(edit) && EDIT_UNSET_ZERO(edit) && EDIT_COUNTS(edit) && EDIT_NAME_INSIDE(edit))
 /* nothing decoded from an empty record */
